@@ -41,7 +41,21 @@ def corr_cell_index(rng, drv, n_cases=30, max_N=(12, 8, 5)) -> Result:
     from symfc.utils.utils import get_indep_atoms_by_lat_trans
     res = Result("cell_index", "correspondence")
     funcs = _decompr_funcs()
+    from symfc.utils import utils_O1
     with Timer(res):
+        for k in range(max(2, n_cases // 6)):
+            c = abstract_cell(rng, max_N=12, with_dist=False)
+            j = c.to_json()
+            res.case([j, 1], c.n_lp >= 2)
+            res.count("order1")
+            a1 = utils_O1._get_atomic_lat_trans_decompr_indices(c.tp).tolist()
+            m1 = drv.ask({"op": "atomic_decompr", "n": 1, **j})
+            if a1 != m1:
+                res.fail("atomic_decompr O1 differs", input=j, impl=a1, model=m1)
+            l1 = utils_O1.get_lat_trans_decompr_indices(c.tp).tolist()
+            m1 = drv.ask({"op": "lat_trans_decompr", "n": 1, **j})
+            if l1 != m1:
+                res.fail("lat_trans_decompr O1 differs", input=j, impl=l1, model=m1)
         for k in range(n_cases):
             n = (2, 3, 4)[k % 3]
             c = abstract_cell(rng, max_N=max_N[n - 2], with_dist=False)
